@@ -889,4 +889,13 @@ theorem useGas_code_is_model (gas amount : UInt64) :
       = if gas.toNat < amount.toNat then none else some (gas.toNat - amount.toNat) :=
   Aqv.Lemmas.Translated.StateTransition_useGas_translated_eq gas amount
 
+/-- tie by translation: core.(*StateTransition).gasUsed is `initialGas − gas` (the fields it reads are pinned by named arguments);
+    no wrap-around while gas ≤ initialGas, which buyGas / useGas / refundGas maintain. -/
+theorem gasUsed_code_is_model (gas initialGas : UInt64) (h : gas ≤ initialGas) :
+    (Aqv.Gen.Translated.StateTransition_gasUsed (st_gas := gas) (st_initialGas := initialGas)).toNat
+      = initialGas.toNat - gas.toNat :=
+  Aqv.Lemmas.Translated.StateTransition_gasUsed_translated_eq gas initialGas h
+
+example : Aqv.Gen.Translated.StateTransition_gasUsed (st_gas := 4000) (st_initialGas := 25000) = 21000 := by decide
+
 end Aqv.Props.C06
